@@ -90,6 +90,10 @@ type fnRes struct {
 
 type rangeEngine struct {
 	c             *Ctx
+	ctxOK         map[*ssa.Function]bool
+	ctxMemo       map[string]aval
+	ctxParams     map[*ssa.Function][]aval
+	ctxLens       map[*ssa.Parameter]int64
 	fieldInv      map[string]aval
 	fieldOverride map[string]aval
 	retSum        map[*ssa.Function]aval
@@ -419,7 +423,83 @@ func (e *rangeEngine) field(key string) aval {
 	return botVal()
 }
 
+// ctxRet analyses a small unexported helper (integer parameters and result, no loop, no store, no
+// call) with the argument ranges of one call site; memoised by callee and arguments.
+func (e *rangeEngine) ctxRet(callee *ssa.Function, args []aval, lens map[int]int64) (aval, bool) {
+	if e.ctxOK == nil {
+		e.ctxOK = map[*ssa.Function]bool{}
+		e.ctxMemo = map[string]aval{}
+	}
+	ok, seen := e.ctxOK[callee]
+	if !seen {
+		ok = callee.Object() != nil && !callee.Object().Exported() && len(callee.Blocks) <= 12 && callee.Signature.Results().Len() == 1 && isIntType(callee.Signature.Results().At(0).Type())
+		nInt := 0
+		for _, p := range callee.Params {
+			if isIntType(p.Type()) {
+				nInt++
+			}
+		}
+		if nInt == 0 && !isSearchHelper(callee) {
+			ok = false
+		}
+		if ok {
+			for _, b := range callee.Blocks {
+				for _, ins := range b.Instrs {
+					switch y := ins.(type) {
+					case *ssa.Call:
+						if _, builtin := y.Common().Value.(*ssa.Builtin); !builtin {
+							ok = false
+						}
+					case *ssa.Store, *ssa.MapUpdate, *ssa.Go, *ssa.Defer:
+						ok = false
+					}
+				}
+			}
+		}
+		e.ctxOK[callee] = ok
+	}
+	if !ok || len(args) != len(callee.Params) {
+		return aval{}, false
+	}
+	key := fname(callee)
+	for i, a := range args {
+		if !isIntType(callee.Params[i].Type()) {
+			continue
+		}
+		if a.bot {
+			return aval{}, false
+		}
+		key += "|" + a.String() + fmt.Sprintf("/%d", a.ax)
+	}
+	for i := range callee.Params {
+		if n, ok := lens[i]; ok {
+			key += fmt.Sprintf("|len%d=%d", i, n)
+		}
+	}
+	if v, ok := e.ctxMemo[key]; ok {
+		return v, true
+	}
+	e.ctxParams = map[*ssa.Function][]aval{callee: args}
+	e.ctxLens = map[*ssa.Parameter]int64{}
+	for i, n := range lens {
+		if i < len(callee.Params) {
+			e.ctxLens[callee.Params[i]] = n
+		}
+	}
+	res := e.analyse(callee, false)
+	if os.Getenv("LUNARLINT_DEBUG_CTX") != "" {
+		fmt.Fprintf(os.Stderr, "ctxRet %s -> %s\n", key, res.ret.String())
+	}
+	e.ctxParams = nil
+	e.ctxLens = nil
+	e.ctxMemo[key] = res.ret
+	return res.ret, true
+}
+
 func (e *rangeEngine) paramOf(fn *ssa.Function, i int) aval {
+	if p, ok := e.ctxParams[fn]; ok && i < len(p) {
+		return p[i]
+	}
 	if m, ok := e.paramOverride[fname(fn)]; ok {
 		if v, ok := m[i]; ok {
 			return v
@@ -1494,6 +1574,26 @@ func (a *fnAnalysis) call(st *rstate, x *ssa.Call) {
 			}
 			if !ok {
 				v = a.e.retSum[callee].orBot()
+				// a small arithmetic helper is summarised per call site: floorMod(x, 10) and floorMod(x, 12)
+				// do not share one result range
+				lens := map[int]int64{}
+				for i, arg := range common.Args {
+					if _, isSlice := arg.Type().Underlying().(*types.Slice); isSlice {
+						if l := a.lenOf(st, arg); l.known() && l.lo() == l.hi() {
+							lens[i] = l.lo()
+						}
+					}
+				}
+				if cv, ok := a.e.ctxRet(callee, args, lens); ok {
+					v = cv
+					// AX-SEARCHHIT through a search helper: in a declared function the searched name is found,
+					// and the vocabularies searched are 1-based
+					if a.e.searchHit[fname(a.fn)] && isSearchHelper(callee) {
+						if m := meetVal(v, rangeVal(1, pinf)); !m.bot {
+							v = m.withAx(v.ax | axBit("AX-SEARCHHIT"))
+						}
+					}
+				}
 			}
 			st.iv[x] = v
 		} else if isFloatType(x.Type()) {
@@ -1587,6 +1687,10 @@ func (a *fnAnalysis) lenOf(st *rstate, v ssa.Value) aval {
 		return constVal(n)
 	}
 	switch x := v.(type) {
+	case *ssa.Parameter:
+		if n, ok := a.e.ctxLens[x]; ok {
+			return constVal(n)
+		}
 	case *ssa.MakeSlice:
 		return a.get(st, x.Len).clamp(0, pinf)
 	case *ssa.Const:
@@ -1993,4 +2097,49 @@ func phiOfCall(phi *ssa.Phi) string {
 		return ""
 	}
 	return "phi-of:" + fname(call.Common().StaticCallee())
+}
+
+// isSearchHelper: an unexported function of a (string, []string) pair, in either order, that returns
+// the loop counter of a linear scan where it finds the string, and the constant 0 otherwise.
+func isSearchHelper(fn *ssa.Function) bool {
+	if fn.Object() == nil || fn.Object().Exported() || len(fn.Params) != 2 || fn.Signature.Results().Len() != 1 || !isIntType(fn.Signature.Results().At(0).Type()) {
+		return false
+	}
+	nStr, nSl := 0, 0
+	for _, p := range fn.Params {
+		if isStringType(p.Type()) {
+			nStr++
+		}
+		if sl, ok := p.Type().Underlying().(*types.Slice); ok && isStringType(sl.Elem()) {
+			nSl++
+		}
+	}
+	if nStr != 1 || nSl != 1 {
+		return false
+	}
+	counter, zero := false, false
+	for _, b := range fn.Blocks {
+		for _, ins := range b.Instrs {
+			ret, ok := ins.(*ssa.Return)
+			if !ok || len(ret.Results) != 1 {
+				continue
+			}
+			if k, ok := constInt(ret.Results[0]); ok && k == 0 {
+				zero = true
+				continue
+			}
+			switch v := ret.Results[0].(type) {
+			case *ssa.Phi:
+				counter = true
+			case *ssa.BinOp:
+				_, isPhi := v.X.(*ssa.Phi)
+				counter = counter || isPhi
+			case *ssa.Extract:
+				counter = true
+			default:
+				return false
+			}
+		}
+	}
+	return counter && zero
 }
